@@ -462,3 +462,25 @@ Theorem C06_send_before_register_refuted : forall c i a n p,
   forall a' n', wf_event (ERead i a' n') -> snd (step true (fst res) (ERead i a' n')) = [ORet false].
 Proof. exact send_before_register_refuted. Qed.
 Print Assumptions C06_send_before_register_refuted.
+
+(* ---------------------------------------------------------------- Wave 16: requests made from inside deck callbacks *)
+(* The manager clears its record before it calls the caller's callback, so the callback runs in [fst (dnote ...)]:
+   inside any deck callback (completion or failure, read or write) the corresponding record is clear and a nested
+   request of the same kind — the next block, a retry — is taken. *)
+Theorem C06_deck_nested_request_taken : forall did d u a dat t asked b base addr len data tok,
+  a <> 0 ->
+  (d_r d = Some (t, asked, b) ->
+     dev_event did (fst (dnote true did d (OReadOk u did a dat))) (DRead base addr len tok) <> None /\
+     dev_event did (fst (dnote true did d (OReadFail u did a dat))) (DRead base addr len tok) <> None) /\
+  (d_w d = Some (t, asked, b) ->
+     dev_event did (fst (dnote true did d (OWriteOk u did a))) (DWrite base addr data tok) <> None /\
+     dev_event did (fst (dnote true did d (OWriteFail u did a))) (DWrite base addr data tok) <> None).
+Proof. exact deck_nested_request_taken. Qed.
+Print Assumptions C06_deck_nested_request_taken.
+
+(* Calling the callback first and clearing afterwards: the callback runs with the record still set, the nested write is
+   refused. *)
+Theorem C06_deck_clear_after_callback_refuted : forall did d t asked b base addr data tok,
+  d_w d = Some (t, asked, b) -> dev_event did d (DWrite base addr data tok) = None.
+Proof. exact deck_clear_after_callback_refuted. Qed.
+Print Assumptions C06_deck_clear_after_callback_refuted.
